@@ -141,54 +141,42 @@ a_real a_mf_linz(a_real x, a_real a, a_real b)
 
 a_real a_mf_s(a_real x, a_real a, a_real b)
 {
-    if (x > (a + b) / 2)
+    if (x <= a)
     {
-        if (x < b)
-        {
-            x = 1 - 2 * a_real_pow((b - x) / (b - a), 2);
-        }
-        else /* x >= b */
-        {
-            x = 1;
-        }
+        x = 0;
+    }
+    else if (x >= b)
+    {
+        x = 1;
+    }
+    else if (x - a > b - x) /* a < x < b, nearer to b: above the midpoint */
+    {
+        x = 1 - 2 * a_real_pow((b - x) / (b - a), 2);
     }
     else /* x <= (a+b)/2 */
     {
-        if (x > a)
-        {
-            x = 2 * a_real_pow((x - a) / (b - a), 2);
-        }
-        else /* x <= a */
-        {
-            x = 0;
-        }
+        x = 2 * a_real_pow((x - a) / (b - a), 2);
     }
     return x;
 }
 
 a_real a_mf_z(a_real x, a_real a, a_real b)
 {
-    if (x < (a + b) / 2)
+    if (x <= a)
     {
-        if (x > a)
-        {
-            x = 1 - 2 * a_real_pow((x - a) / (b - a), 2);
-        }
-        else /* x <= a */
-        {
-            x = 1;
-        }
+        x = 1;
+    }
+    else if (x >= b)
+    {
+        x = 0;
+    }
+    else if (x - a < b - x) /* a < x < b, nearer to a: below the midpoint */
+    {
+        x = 1 - 2 * a_real_pow((x - a) / (b - a), 2);
     }
     else /* x >= (a+b)/2 */
     {
-        if (x < b)
-        {
-            x = 2 * a_real_pow((b - x) / (b - a), 2);
-        }
-        else /* x >= b */
-        {
-            x = 0;
-        }
+        x = 2 * a_real_pow((b - x) / (b - a), 2);
     }
     return x;
 }
